@@ -136,7 +136,7 @@ fn counter_of(v: &CallCountVerifier) -> Option<&'static AtomicUsize> {
 pub fn run_c06(ctx: &Ctx) {
     let ns: [usize; 8] = [0, 1, 2, 3, 5, 8, 16, 64];
     let ts: [usize; 5] = [1, 2, 4, 8, 16];
-    let reps = if ctx.n > 0 { ctx.n } else if ctx.thorough { 40 } else { 1 };
+    let reps = if ctx.n > 0 { ctx.n } else if ctx.thorough { 60 } else { 4 };
     // enumerate (arm, N, k, t, rep)
     let mut trials = Vec::new();
     for rep in 0..reps {
